@@ -40,6 +40,9 @@ func C10(p *Prog, r *Run) {
 	eo := p.Field(PkgG, "Species", "ExpectedOffspring")
 	sco := p.Field(PkgG, "Organism", "superChampOffspring")
 
+	isSco := func(t *Term) bool { return t != nil && t.Op == "field" && t.Obj == sco }
+	isEO := func(t *Term) bool { return t != nil && t.Op == "field" && t.Obj == eo }
+	isQuotaOrReserve := func(t *Term) bool { return isSco(t) || isEO(t) }
 	// classify the duplicate call sites of reproduce
 	var cloneCall, superCall ssa.CallInstruction
 	for _, c := range CallsTo(rep, dup) {
@@ -49,9 +52,11 @@ func C10(p *Prog, r *Run) {
 		}
 		isSuper := false
 		for _, g := range guardsResolved(c.Block()) {
-			gt := tm.Of(g.Cond)
-			if gt.Op == "bin" && gt.Name == ">" && g.True && gt.Args[0].Op == "field" && gt.Args[0].Obj == sco && gt.Args[1].String() == "0" {
-				isSuper = true
+			// any spelling of "clones are pending": sco > 0, 0 < sco, sco >= 1, !(sco <= 0) ...
+			if f, ok := c10FactOf(tm, g, isSco); ok && isSco(f.TX) {
+				if lo, has, _, _ := f.constBounds(); has && lo >= 1 {
+					isSuper = true
+				}
 			}
 		}
 		if isSuper {
@@ -102,29 +107,34 @@ func C10(p *Prog, r *Run) {
 				extra = append(extra, gt.String()+" evaluated before the loop although ExpectedOffspring is written during reproduce")
 				continue
 			}
+			// the branch outcome as a comparison that holds, the quota / the reserved clones on the left
+			// (spelling-independent: operands swapped, negated complement, outcome of the else branch)
+			f, isF := c10FactOf(tm, g, isQuotaOrReserve)
+			_, yConst := constInt(f.Y)
+			hasArg := func(pred func(*Term) bool) bool {
+				return gt.Op == "bin" && len(gt.Args) == 2 && (pred(gt.Args[0]) || pred(gt.Args[1]))
+			}
 			switch {
-			case gt.Op == "bin" && gt.Name == ">" && gt.Args[0].Op == "field" && gt.Args[0].Obj == eo && gt.Args[0].Args[0].Op == "recv" && gt.Args[1].Op == "const":
-				k, _ := constInt(gt.Args[1].V)
-				if g.True && k <= 5 {
+			case isF && yConst && isEO(f.TX) && f.TX.Args[0].Op == "recv":
+				// a lower bound on the quota that admits every quota above five
+				lo, hasLo, _, hasHi := f.constBounds()
+				if hasLo && !hasHi && lo <= 6 {
 					okEO = true
 				} else {
-					extra = append(extra, fmt.Sprintf("ExpectedOffspring > %d", k))
+					extra = append(extra, f.String())
 				}
-			case gt.Op == "bin" && gt.Name == ">=" && gt.Args[0].Op == "field" && gt.Args[0].Obj == eo && gt.Args[1].Op == "const":
-				k, _ := constInt(gt.Args[1].V)
-				if g.True && k <= 6 {
-					okEO = true
+			case isF && yConst && isSco(f.TX):
+				// "no super-champion clones pending": sco <= 0, sco < 1, sco == 0, !(sco > 0) ...
+				if _, _, hi, hasHi := f.constBounds(); hasHi && hi <= 0 {
+					okSuper = true
 				} else {
-					extra = append(extra, fmt.Sprintf("ExpectedOffspring >= %d", k))
+					extra = append(extra, f.String())
 				}
-			case gt.Op == "bin" && gt.Name == ">" && gt.Args[0].Op == "field" && gt.Args[0].Obj == sco && gt.Args[1].String() == "0" && !g.True:
-				okSuper = true
-			case gt.Op == "bin" && gt.Name == "<" && g.True && gt.Args[1].Op == "field" && gt.Args[1].Obj == eo:
+			case isF && !yConst && isEO(f.TX) && f.Op == token.GTR:
 				// loop bound count < ExpectedOffspring
-			case gt.Op == "bin" && gt.Name == "==" && strings.HasPrefix(gt.Args[0].String(), "?unknown"):
+			case hasArg(func(x *Term) bool { return strings.HasPrefix(x.String(), "?unknown") }) && (gt.Name == "==" || gt.Name == "!="):
 				// select: default branch of the cancellation test
-			case gt.Op == "bin" && gt.Name == ">" && gt.Args[0].Op == "field" && gt.Args[0].Obj == eo && gt.Args[1].Op == "const" && gt.Args[1].String() == "0":
-			case gt.Op == "bin" && gt.Args[0].String() == "len(recv.Organisms)":
+			case hasArg(func(x *Term) bool { return x.String() == "len(recv.Organisms)" }):
 			case gt.Op == "extract" || gt.String() == "FromContext(p1)#1":
 			default:
 				if ph, ok := g.Cond.(*ssa.Phi); ok && !g.True && flag == nil {
@@ -151,7 +161,7 @@ func C10(p *Prog, r *Run) {
 					}
 					continue
 				}
-				if gt.Op == "bin" && (gt.Name == "!=" || gt.Name == "==") && gt.Args[1].Op == "nil" {
+				if gt.Op == "bin" && (gt.Name == "!=" || gt.Name == "==") && (gt.Args[1].Op == "nil" || gt.Args[0].Op == "nil") {
 					continue // error checks
 				}
 				extra = append(extra, gt.String()+"="+fmt.Sprint(g.True))
@@ -226,9 +236,9 @@ func C10(p *Prog, r *Run) {
 					// mutators of the super-champion offspring: only while more than one is pending
 					g1 := false
 					for _, g := range guardsResolved(u.Block()) {
-						gt := tm.Of(g.Cond)
-						if gt.Op == "bin" && gt.Name == ">" && g.True && gt.Args[0].Op == "field" && gt.Args[0].Obj == sco && gt.Args[1].Op == "const" {
-							if k, _ := constInt(gt.Args[1].V); k >= 1 {
+						// any spelling of "more than one clone pending": sco > 1, 1 < sco, sco >= 2, !(sco <= 1) ...
+						if f, ok := c10FactOf(tm, g, isSco); ok && isSco(f.TX) {
+							if lo, has, _, _ := f.constBounds(); has && lo >= 2 {
 								g1 = true
 							}
 						}
@@ -327,9 +337,13 @@ func C10(p *Prog, r *Run) {
 			self := ta.Of(st.Addr).String()
 			okM, why := false, ""
 			switch {
-			case vt.Op == "bin" && (vt.Name == "*" || vt.Name == "/") && vt.Args[0].String() == self:
-				// a positive constant, an option value or the species size
+			case vt.Op == "bin" && (vt.Name == "*" || vt.Name == "/") && vt.Args[0].String() == self,
+				vt.Op == "bin" && vt.Name == "*" && vt.Args[1].String() == self:
+				// a positive constant, an option value or the species size (either operand order of the product)
 				o := vt.Args[1]
+				if vt.Args[0].String() != self {
+					o = vt.Args[0]
+				}
 				if o.Op == "const" {
 					okM = !strings.HasPrefix(o.Name, "-") && o.Name != "0"
 				} else {
@@ -339,13 +353,14 @@ func C10(p *Prog, r *Run) {
 			case vt.Op == "const":
 				// allowed only under fitness < c with c <= 0
 				for _, g := range guardsResolved(st.Block()) {
-					gt := ta.Of(g.Cond)
-					if gt.Op == "bin" && (gt.Name == "<" || gt.Name == "<=") && g.True && gt.Args[0].String() == self && gt.Args[1].Op == "const" {
-						c := gt.Args[1].Name
+					// fitness < c / fitness <= c in any spelling (c > fitness, ...), the fitness on the left
+					f, isF := c10FactOf(ta, g, func(t *Term) bool { return t.String() == self })
+					if isF && (f.Op == token.LSS || f.Op == token.LEQ) && f.TX.String() == self && f.TY.Op == "const" {
+						c := f.TY.Name
 						if c == "0" || strings.HasPrefix(c, "-") {
 							okM = true
 						}
-						why = "replaced by " + vt.Name + " when fitness " + gt.Name + " " + c
+						why = "replaced by " + vt.Name + " when fitness " + f.Op.String() + " " + c
 					}
 				}
 				if why == "" {
@@ -364,13 +379,15 @@ func C10(p *Prog, r *Run) {
 		for _, b := range less.Blocks {
 			if ret, ok := b.Instrs[len(b.Instrs)-1].(*ssa.Return); ok && tl.Of(ret.Results[0]).String() == "true" {
 				for _, g := range guardsResolved(b) {
-					gt := tl.Of(g.Cond)
-					if gt.Op == "bin" && gt.Name == "<" && g.True && gt.Args[0].String() == "recv[*].Fitness" {
-						if l, ok := g.Cond.(*ssa.BinOp); ok {
-							li := tl.Of(l.X).Args[0].Args[1]
-							ri := tl.Of(l.Y).Args[0].Args[1]
-							okL = isParamIdx(li, 1) && isParamIdx(ri, 2)
-						}
+					// f[i].Fitness < f[j].Fitness, also spelled f[j].Fitness > f[i].Fitness
+					f, isF := c10FactOf(tl, g, nil)
+					if isF && f.Op == token.GTR {
+						f.X, f.Y, f.TX, f.TY, f.Op = f.Y, f.X, f.TY, f.TX, token.LSS
+					}
+					if isF && f.Op == token.LSS && f.TX.String() == "recv[*].Fitness" && f.TY.String() == "recv[*].Fitness" {
+						li := f.TX.Args[0].Args[1]
+						ri := f.TY.Args[0].Args[1]
+						okL = isParamIdx(li, 1) && isParamIdx(ri, 2)
 					}
 				}
 			}
@@ -488,6 +505,12 @@ func C10(p *Prog, r *Run) {
 		}
 		// the write sets are not empty (the analysis saw the epoch path at all)
 		r.Floor("write-through facts of the epoch path", nFacts, 10)
+	})
+	r.Rule("C10.7", "the clones reserved for a champion fit into its species' quota: wherever superChampOffspring of a species' Organisms[0] is assigned (delta coding, stolen babies), the same path leaves that species an ExpectedOffspring that is at least as large - reproduce makes the exact copy only as the LAST reserved clone and only while count < ExpectedOffspring, so a larger reservation loses the champion", func() {
+		r.c10ReserveWithinQuota(rep)
+	})
+	r.Rule("C10.8", "the offspring loop gives the champion its turn and delivers the copy: it runs ExpectedOffspring times (count from 0 in steps of one, quota not written meanwhile), the organism wrapping the copy is appended to the babies on every continuing path, the list only grows and is what reproduce returns", func() {
+		r.c10OffspringLoop(rep, tm, newOrg, map[string]ssa.CallInstruction{"clone": cloneCall, "super-champ": superCall})
 	})
 	_ = token.ADD
 }
